@@ -96,6 +96,25 @@ Proof.
   auto.
 Qed.
 
+Lemma fprefix_states s : states_of (final_prefix s) = [].
+Proof.
+  unfold final_prefix. rewrite states_of_app. fold (closes_of (st_open s)). rewrite closes_states, app_nil_r.
+  induction (pred (length (st_watch s))); simpl; auto.
+Qed.
+
+Lemma fprefix_count f s : (forall h, f (AClose h) = false) -> f ASenderPanic = false -> count f (final_prefix s) = 0.
+Proof.
+  intros H1 H2. unfold final_prefix. rewrite count_app. fold (closes_of (st_open s)). rewrite closes_count by auto.
+  induction (pred (length (st_watch s))); simpl; auto. rewrite count_cons, H2. simpl. auto.
+Qed.
+
+Lemma fprefix_neutral s : forallb neutral (final_prefix s) = true.
+Proof.
+  unfold final_prefix. rewrite forallb_app. fold (closes_of (st_open s)).
+  assert (forallb neutral (closes_of (st_open s)) = true) as -> by (destruct (st_open s); reflexivity).
+  rewrite andb_true_r. induction (pred (length (st_watch s))); simpl; auto.
+Qed.
+
 Ltac solve_word H1 :=
   rewrite ?states_of_app, ?phase_word_app; try rewrite H1; try reflexivity.
 
@@ -168,19 +187,19 @@ Proof.
         rewrite ?count_cons, ?count_nil; simpl; auto; try lia; try discriminate.
   - (* PFinal *)
     destruct I as [H1 H2 H3 H4 H5 H6 H7 H8]. rewrite EPC in *. simpl in H1, H2, H3, H4, H5, H6, H7, H8.
-    fold (closes_of (st_open s)) in ST.
+    try fold (final_prefix s) in ST.
     destruct (svc_blocked (live_gen s) s).
     + inversion ST; subst. constructor; simpl;
-        rewrite ?app_assoc, ?states_of_app, ?phase_word_app, ?count_app, ?closes_states, ?app_nil_r, ?H1; simpl;
-        rewrite ?closes_count by reflexivity; rewrite ?count_cons, ?count_nil; simpl; auto; try lia.
+        rewrite ?app_assoc, ?states_of_app, ?phase_word_app, ?count_app, ?fprefix_states, ?app_nil_r, ?H1; simpl;
+        rewrite ?fprefix_count by reflexivity; rewrite ?count_cons, ?count_nil; simpl; auto; try lia.
     + destruct (svc_shutdown (live_gen s) (cfg_of o (live_gen s))) as [acts ok] eqn:ESW.
       assert (acts = fst (svc_shutdown (live_gen s) (cfg_of o (live_gen s)))) as EA by now rewrite ESW.
       assert (states_of acts = []) as S1 by (rewrite EA; apply sweep_states).
       assert (forall f, (forall a, neutral a = false -> f a = false) -> (forall gg, f (ANotReady gg) = false) -> count f acts = 0) as S2
           by (intros; rewrite EA; apply sweep_misc; auto).
       inversion ST; subst; constructor; simpl;
-        rewrite ?app_assoc, ?states_of_app, ?phase_word_app, ?count_app, ?closes_states, ?S1, ?app_nil_r, ?H1; simpl;
-        rewrite ?closes_count by reflexivity;
+        rewrite ?app_assoc, ?states_of_app, ?phase_word_app, ?count_app, ?fprefix_states, ?S1, ?app_nil_r, ?H1; simpl;
+        rewrite ?fprefix_count by reflexivity;
         rewrite ?S2 by (try (intros []; simpl; congruence); reflexivity);
         rewrite ?count_cons, ?count_nil; simpl; auto; try lia; try discriminate.
   - inversion ST; subst. now rewrite app_nil_r.
@@ -304,16 +323,16 @@ Proof.
         eapply (InvL_app o s); eauto; unfold live_list; simpl; rewrite Hg; auto.
   - (* PFinal *)
     pose proof (C_live1 _ _ C) as HL. rewrite EPC in HL. destruct (HL eq_refl) as [g Hg].
-    unfold live_gen in ST. rewrite Hg in ST. fold (closes_of (st_open s)) in ST.
+    unfold live_gen in ST. rewrite Hg in ST. try fold (final_prefix s) in ST.
     destruct (svc_blocked g s).
     + inversion ST; subst. (eapply (InvL_neutral o s); [reflexivity|try reflexivity|exact I]).
-      rewrite !forallb_app, closes_neutral. reflexivity.
+      rewrite !forallb_app, fprefix_neutral. reflexivity.
     + destruct (svc_shutdown g (cfg_of o g)) as [acts ok] eqn:ESW.
       assert (acts = fst (svc_shutdown g (cfg_of o g))) as EA by now rewrite ESW.
       inversion ST; subst.
       match goal with |- InvL _ _ (_ ++ ?p ++ _ ++ ?t) => 
         destruct (sweep_from_live o g t eq_refl) as [B1 B2];
-        assert (forallb neutral p = true) as NP by (rewrite forallb_app, closes_neutral; reflexivity);
+        assert (forallb neutral p = true) as NP by (rewrite forallb_app, fprefix_neutral; reflexivity);
         destruct (neutral_block p (live_list o s) NP) as [N1 N2]
       end.
       eapply (InvL_app o s); eauto.
@@ -518,16 +537,16 @@ Proof.
         eapply (InvN_sweep o s); eauto.
   - (* PFinal *)
     pose proof (C_live1 _ _ C) as HL. rewrite EPC in HL. destruct (HL eq_refl) as [g Hg].
-    unfold live_gen in ST. rewrite Hg in ST. fold (closes_of (st_open s)) in ST.
+    unfold live_gen in ST. rewrite Hg in ST. try fold (final_prefix s) in ST.
     destruct (svc_blocked g s).
     + inversion ST; subst. eapply (InvN_neutral o s); eauto; apply neutral_counts;
-      rewrite !forallb_app, closes_neutral; reflexivity.
+      rewrite !forallb_app, fprefix_neutral; reflexivity.
     + destruct (svc_shutdown g (cfg_of o g)) as [acts ok] eqn:ESW.
       assert (acts = fst (svc_shutdown g (cfg_of o g))) as EA by now rewrite ESW.
       inversion ST; subst.
       match goal with |- InvN _ _ (_ ++ ?p ++ _ ++ ?t) =>
         destruct (sweep_tail_counts o g t eq_refl) as [B1 B2];
-        assert (forallb neutral p = true) as NP by (rewrite forallb_app, closes_neutral; reflexivity);
+        assert (forallb neutral p = true) as NP by (rewrite forallb_app, fprefix_neutral; reflexivity);
         pose proof (neutral_counts p NP) as NC
       end.
       eapply (InvN_sweep o s); eauto.
